@@ -26,7 +26,7 @@ PROFILES = ["debug", "release"]
 HAND_DIR = os.path.join(ROOT, "pools", "regalloc")
 QUICK_MAX_OPS = 300          # generated-pool functions validated in the quick tier
 QUICK_MAX_OPS_HAND = 4000    # spill-heavy hand-written programs in the quick tier
-MAX_OPS = 60000              # beyond this a function is not validated (counted, listed in the evidence)
+MAX_OPS = 40000              # beyond this a function is not validated (counted, listed in the evidence)
 SHARD_OPS = 30000
 SHARD_RECS = 600
 BUILD_PROCS = 4
@@ -245,7 +245,7 @@ def describe(rec, verdict, wit):
 # ------------------------------------------------------------------ model checking part
 def model_check(ctx):
     cov = {}
-    main_cfgs = ["MC_RegAlloc_q"] if ctx.quick else ["MC_RegAlloc", "MC_RegAlloc_rand"]
+    main_cfgs = ["MC_RegAlloc_q"] if ctx.quick else ["MC_RegAlloc", "MC_RegAlloc_4", "MC_RegAlloc_rand"]
     for cfg in main_cfgs:
         mc = ctx.tlc("MC_RegAlloc", cfg, workers=3, coverage=True, timeout=3000,
                      tlc_seed=11 if cfg.endswith("rand") else None)
